@@ -56,9 +56,9 @@ def rename_pvt(evs):
     for e in evs:
         if e["e"] == "call.create": n = e["nthr"]
         e = dict(e)
-        for k in ("d", "q", "arg", "t", "a", "b", "cur", "s", "pipe"):
+        for k in ("d", "q", "arg", "t", "a", "b", "cur", "s", "pipe", "thr"):
             if k in e and n is not None and e[k] == n and not (k in ("a", "b") and e["e"].startswith(("dec.", "bsend.", "cbsend.", "done."))) \
-               :
+               and not (k == "thr" and e["e"] != "call.ev"):     # "thr" is a thread id only in call.ev (a ledger count elsewhere)
                 e[k] = PVT
         out.append(e)
     return out
